@@ -77,6 +77,7 @@ func (s *Sweeper) sweep(ctx context.Context) error {
 	retention := s.conf.RetentionDuration()
 	cutoff := time.Now().Add(-retention)
 	cutoffTS := header.TimestampFromTime(cutoff)
+	cutoffTS = verifCutoff(s, cutoffTS)
 
 	s.l.WithField("cutoff", cutoff).Debug("Sweep started")
 	defer s.l.Debug("Sweep finished")
